@@ -1077,11 +1077,17 @@ pub fn run(report: &Report, tier: &Tier) {
         "part S: 1..4 interfaces (v4/v6/both, two IPv4 subnets on one interface, optional loopback) x 1..6 operations drawn from enable/disable with \
          1..2 kinds of {All, IPv4, IPv6, Name, Addr (present, absent, appearing later), LoopbackV4/V6, IndexV4/V6, Predicate x4} and table edits \
          {address added / removed / moved, interface down / up / added / removed}; after each operation a checkpoint (daemon interface set from \
-         the hooked state; a fresh search's first query on the wire) and announcements injected on every link, on or off; distinct by operation sequence",
+         the hooked state; a fresh search's first query on the wire) and announcements injected on every link, on or off. part E: the same topologies \
+         and operations around 1..3 registrations with explicit addresses (subsets of the host's, sometimes a foreign one) or automatic addresses, \
+         10..29 questions injected on any link; every packet judged by link, subnet and address set. part P: a browser on two or three interfaces learns \
+         instances on one, the other or both (IPv4 and IPv6, one address known on both); then eth1 is removed / down / disabled by Name, IndexV4+IndexV6, \
+         Addr, IndexV6, IPv6 or Predicate; a second browse, a TXT update and a host-name search force later events; distinct by operation sequence / loss kind",
     );
     for r in ["I3-state", "I3-wire", "I3-egress", "I3-ingress", "I1-link", "I1-addr", "I1-announced", "I2-follows", "I4-removed", "I4-reresolved", "I4-cache", "I5"] {
         report.floor(r, 50);
     }
+    report.assume("nothing is judged for one interface-check interval after an edit of the interface table (the daemon cannot know yet)");
+    report.assume("a family with an address of the service in the link's subnet is what 'an address in the same subnet' means per packet; link-local IPv6 prefixes are the same subnet on every link");
     let seed = report.seed;
     let n: u64 = if tier.thorough { 90_000 } else { 3_000 };
     run_parallel(report, n, threads(), tier.budget_s, |i, l| match i % 3 {
